@@ -640,7 +640,21 @@ func (c *facadeCase) trace() []string {
 	return t
 }
 
-var facadeSizes = []int{0, 1, 2, 15, 16, 17, 20, 3, 5, 8}
+// the sizes straddle the default capacities the library has TODAY (read from the classes, not written down here:
+// no property fixes the number, so a changed defaultCapacity_ must move the boundary cases with it)
+var facadeSizes = func() []int {
+	s, q := int(col.Stack[int](cdc.Notation().Make()).DefaultCapacity()), int(col.Queue[int](cdc.Notation().Make()).DefaultCapacity())
+	sizes := []int{0, 1, 2, s - 1, s, s + 1, s + 4, 3, 5, 8}
+	if q != s {
+		sizes = append(sizes, q-1, q, q+1, q+4)
+	}
+	for i, n := range sizes {
+		if n < 0 {
+			sizes[i] = 0
+		}
+	}
+	return sizes
+}()
 
 func facadeGoLit(v any) string {
 	switch a := v.(type) {
@@ -1336,7 +1350,7 @@ func genFacade(prop string, seed uint64, tier, outDir string, count int) error {
 		round := i / ncells
 		n := facadeSizes[(round+cell+phS)%len(facadeSizes)]
 		if cr.chance(1, 6) {
-			n = cr.intn(21)
+			n = cr.intn(facadeSizes[6] + 1)
 		}
 		npos := (round/2 + cell + phN) % 3
 		malformed := 0
@@ -1388,7 +1402,7 @@ func genFacade(prop string, seed uint64, tier, outDir string, count int) error {
 		meta.Traces = append(meta.Traces, c.trace())
 	}
 	meta.Cases = len(cases)
-	meta.Rule = "one case = one call of a module-level constructor; the (kind, argument form) cells are visited round-robin, element/key types (7, and 49 key/value pairs), sizes (0,1,2,15,16,17,20,3,5,8 and 1/6 random 0..20) and notation position (none/first/last; for associations also between key and value) rotate with seed-dependent phases; 1/8 of the calls are malformed (two data arguments, unknown argument types, ill-typed or unparsable sources, swapped/missing association arguments); a case is distinct and non-trivial when it has at least one argument and its (kind, types, encoded argument list) differs from every other case"
+	meta.Rule = "one case = one call of a module-level constructor; the (kind, argument form) cells are visited round-robin, element/key types (7, and 49 key/value pairs), sizes (0,1,2,d-1,d,d+1,d+4,3,5,8 for the default capacity d read from DefaultCapacity() and 1/6 random 0..d+4) and notation position (none/first/last; for associations also between key and value) rotate with seed-dependent phases; 1/8 of the calls are malformed (two data arguments, unknown argument types, ill-typed or unparsable sources, swapped/missing association arguments); a case is distinct and non-trivial when it has at least one argument and its (kind, types, encoded argument list) differs from every other case"
 	meta.Extra["predicate_violations_count"] = nviol
 	meta.Extra["predicate_violations"] = predViolations
 	meta.Extra["predicates"] = "evaluated in Go on the implementation for every well-formed case: (a) module-level result = class-level result on the same data (kind, contents, order, capacity, collator identity; order ignored only where a Go map is the source of a catalog), (b) source form: contents and order = those of ParseSource on the same text (as sets for Set and Map)"
